@@ -214,13 +214,26 @@ def normalise_binary(steps):
     return out
 
 
-def correspond(mod_factory, desc):
+def correspond(mod_factory, desc0):
     viols = []
+    desc = desc0
     n = 0
-    for opt in (False, True):
+    for opt, objects in itertools.product((False, True), ('fresh', 'one_binary_first', 'one_pretty_first')):
+        desc = dict(desc0, objects=objects) if objects != 'fresh' else desc0
         try:
-            fb = pyrun.serialize_real(mod_factory(), opt, 'binary')
-            fp = pyrun.serialize_real(mod_factory(), opt, 'pretty')
+            # the two formats are written from two fresh module objects, or from ONE object in either order (what the first
+            # run leaves behind in the object must not change what the second one writes)
+            if objects == 'fresh':
+                fb = pyrun.serialize_real(mod_factory(), opt, 'binary')
+                fp = pyrun.serialize_real(mod_factory(), opt, 'pretty')
+            else:
+                obj = mod_factory()
+                if objects == 'one_binary_first':
+                    fb = pyrun.serialize_real(obj, opt, 'binary')
+                    fp = pyrun.serialize_real(obj, opt, 'pretty')
+                else:
+                    fp = pyrun.serialize_real(obj, opt, 'pretty')
+                    fb = pyrun.serialize_real(obj, opt, 'binary')
         except Exception as ex:  # noqa: BLE001
             # the toolkit refuses this module in some format: only a difference between the formats matters here
             try:
